@@ -15,7 +15,7 @@ from . import refmath
 
 INF = math.inf
 REGIMES = ["dec", "dy", "free"]
-UNIT = {"dec": 1000, "dy": 64}
+UNIT = {"dec": 1000, "dy": 64, "half": 2}  # "half": k/2, representable at every decimals setting >= 1 (C14/C15)
 
 
 def regime():
@@ -74,6 +74,8 @@ def height(rg: str = "dec"):
         return st.one_of(st.just(1.0), st.floats(0.01, 1.0), st.integers(1, 1000).map(lambda k: k / 1000))
     if rg == "dy":
         return st.one_of(st.just(1.0), st.integers(1, 64).map(lambda k: k / 64))
+    if rg == "half":
+        return st.sampled_from([1.0, 1.0, 0.5])
     return st.one_of(st.just(1.0), st.integers(1, 1000).map(lambda k: k / 1000))
 
 
@@ -177,6 +179,8 @@ def unit_y(rg: str):
 def slope_mag(rg: str):
     if rg == "free":
         return st.floats(0.05, 50.0)
+    if rg == "half":
+        return st.sampled_from([0.5, 1.0, 2.0, 5.0, 10.0, 30.0])
     return st.sampled_from([0.125, 0.5, 1.0, 2.0, 5.0, 10.0, 30.0])
 
 
@@ -413,7 +417,8 @@ def rule_text(r, decimals=3):
 
 
 @st.composite
-def rule(draw, in_vars, out_vars, ante_vars=None, depth=3, weights=True, cons_hedges=2, max_conc=3, flags=True):
+def rule(draw, in_vars, out_vars, ante_vars=None, depth=3, weights=True, cons_hedges=2, max_conc=3, flags=True,
+         coarse_weights=False):
     a = draw(antecedent(ante_vars or in_vars, depth))
     nc = draw(st.sampled_from([1, 1, 1, 2, 2, 3][: 3 + max_conc]))
     cons = []
@@ -424,7 +429,10 @@ def rule(draw, in_vars, out_vars, ante_vars=None, depth=3, weights=True, cons_he
                      "term": draw(st.sampled_from(tn))})
     w = None
     if weights and draw(st.integers(0, 2)) == 0:
-        w = draw(st.one_of(st.integers(0, 1000).map(lambda k: k / 1000), st.sampled_from([0.0, 0.5, 1.0, 0.25])))
+        if coarse_weights:
+            w = draw(st.sampled_from([0.0, 0.5, 1.0]))
+        else:
+            w = draw(st.one_of(st.integers(0, 1000).map(lambda k: k / 1000), st.sampled_from([0.0, 0.5, 1.0, 0.25])))
     return {"ante": a, "cons": cons, "weight": w, "enabled": draw(st.sampled_from([True] * 7 + [False])) if flags else True,
             "tight": draw(st.booleans())}
 
@@ -455,7 +463,7 @@ def engine(draw, profile=None, n_in=(1, 3), n_out=(1, 2), n_blocks=(1, 2), n_rul
         avars = ivars + (ovars if out_in_ante and draw(st.booleans()) else [])
         nr = draw(st.integers(*n_rules))
         rules = [draw(rule(ivars, ovars, ante_vars=avars if draw(st.integers(0, 2)) else ivars, depth=depth,
-                           weights=weights, flags=flags)) for _ in range(nr)]
+                           weights=weights, flags=flags, coarse_weights=(rg == "half"))) for _ in range(nr)]
         blocks.append({"name": f"rb{b + 1}", "description": "",
                        "enabled": draw(st.sampled_from([True] * 8 + [False])) if flags else True,
                        "conjunction": draw(st.sampled_from(refmath.TNORMS)),
